@@ -71,7 +71,8 @@ extern "C" {
 size_t sut_domain_size(int mt) { size_t r = 0; DISPATCH(mt, r = sizeof(frg::qs_domain<M>)); return r; }
 size_t sut_agent_size(int mt) { size_t r = 0; DISPATCH(mt, r = sizeof(frg::qs_agent<M>)); return r; }
 size_t sut_node_size() { return sizeof(frg::qs_node); }
-void sut_domain_construct(int mt, void *mem) { DISPATCH(mt, new (mem) frg::qs_domain<M>()); }
+// both initialisation forms (storage is garbage-filled): default-initialisation leaves everything to the constructor
+void sut_domain_construct(int mt, void *mem, int default_init) { if (default_init) { DISPATCH(mt, new (mem) frg::qs_domain<M>); } else { DISPATCH(mt, new (mem) frg::qs_domain<M>()); } }
 void sut_agent_construct(int mt, void *mem, void *dom) { DISPATCH(mt, new (mem) frg::qs_agent<M>(static_cast<frg::qs_domain<M> *>(dom))); }
 void sut_online(int mt, void *ag) { DISPATCH(mt, static_cast<frg::qs_agent<M> *>(ag)->online()); }
 void sut_offline(int mt, void *ag) { DISPATCH(mt, static_cast<frg::qs_agent<M> *>(ag)->offline()); }
